@@ -272,6 +272,30 @@ func c10R4(c *Ctx) {
 		}
 		c.check(good && n > 0, c.fnName(s.Fn)+"/"+s.ID+"<-createdFiles", c.ipos(s.Call), "only recorded paths are removed", "a path that was not recorded as created can be removed")
 	}
+	// every recorded path is either already gone or removed: no other way round the loop
+	df := c.fn("trzszTransfer.deleteCreatedFiles")
+	var rm ssa.Instruction
+	for _, ci := range callsIn(df, idIs("os.RemoveAll", "os.Remove")) {
+		rm = ci.(ssa.Instruction)
+	}
+	if rm != nil {
+		// the loop header: the block that loads the next element
+		for _, b := range df.Blocks {
+			if b.Comment != "rangeindex.body" {
+				continue
+			}
+			goneEdge := func(from, to *ssa.BasicBlock) bool {
+				i := blockIf(from)
+				if i == nil || from.Succs[0] != to {
+					return false
+				}
+				call, _ := callOf(i.Cond)
+				return call != nil && calleeID(&call.Call) == "os.IsNotExist"
+			}
+			hit, path := reachFromE(b, 0, func(x ssa.Instruction) bool { return x.Block().Comment == "rangeindex.loop" && instrIndex(x) == 0 }, func(x ssa.Instruction) bool { return x == rm }, goneEdge)
+			c.check(hit == nil, "deleteCreatedFiles/every-entry", c.pos(df.Pos()), "each recorded path is removed unless it no longer exists", "a recorded path can be skipped by the delete loop: stop-and-delete leaves files of this transfer behind", c.pathStr(path)...)
+		}
+	}
 	// writers of createdFiles
 	nw := 0
 	for _, f := range c.AllFns {
